@@ -26,6 +26,7 @@ fn renderings(t: &mut Tape, schema: &crate::world::schema::Schema) -> Vec<Render
         indent_tabs: t.chance(20),
         commas: t.chance(10),
         directive_noise: if t.chance(40) { t.u64() | 1 << 40 } else { 0 },
+            declare_builtin_scalars: t.chance(10),
     };
     let mut js = |wrapped: bool, t: &mut Tape| JsonStyle {
         wrapped_in_data: wrapped,
